@@ -384,7 +384,7 @@ def rnd_text(rng, lo, hi, alphabet="ABCDEFGHIJKLMNOPQRSTUVWXYZ0123456789.-_/"):
     return sx
 
 
-def gen_site_source(rng, ctx, edge):
+def gen_site_source(rng, ctx, edge, directed=False):
     """SINEX-like source data for 1..60 stations + the piecewise-constant truth the rows are predicted from"""
     n = rng.choice([1, 1, 2, 3, 5, 8, 13, 25, 40, 60]) if not ctx.quick() else rng.choice([1, 1, 2, 3, 4, 6, 9, 14, 60])
     names = set()
@@ -428,9 +428,15 @@ def gen_site_source(rng, ctx, edge):
             ants.append(dict(start_time=a, end_time=b, antenna_type=rnd_text(rng, 1, 15), radome_type=rng.choice(["NONE", "LEIS", "TZGD", "SCIS"]),
                              serial_number=rnd_text(rng, 0 if rng.random() < 0.1 else 1, serial_hi, "0123456789ABCR")))
         rcvs = []
-        for a, b in history(rng.choice([1, 2, 2, 3])):
-            if rcvs and rng.random() < 0.4:     # firmware-only change
+        forced = directed and st == names[0]    # directed corpus: same model replaced (new serial), then firmware only, then new model
+        for j_, (a, b) in enumerate(history(4 if forced else rng.choice([1, 2, 2, 3, 4]))):
+            c_ = [9, 0.3, 0.1, 9][j_] if forced else rng.random()
+            if rcvs and c_ < 0.25:      # firmware-only change
                 r = dict(rcvs[-1], start_time=a, end_time=b, firmware=rnd_text(rng, 1, 11, "0123456789."))
+            elif rcvs and c_ < 0.45:    # the receiver is replaced by one of the same model: another serial number
+                r = dict(rcvs[-1], start_time=a, end_time=b, firmware=rnd_text(rng, 1, 11, "0123456789."),
+                         serial_number=rcvs[-1]["serial_number"][:15] + rng.choice("XYZ") + str(j_))
+                ctx.count("site:receiver_same_model_new_serial")
             else:
                 r = dict(start_time=a, end_time=b, receiver_type=rnd_text(rng, 1, 20, "ABCDEFGHIJ 0123456789"). strip() or "R",
                          firmware=rnd_text(rng, 1, 11, "0123456789."), serial_number=rnd_text(rng, 1, serial_hi, "0123456789ABCR"))
@@ -657,7 +663,10 @@ def run_site_writers(ctx, t, acc, n_sets):
     rng = ctx.rng
     for k in range(n_sets):
         edge = rng.choice([None] * 14 + ["station5", "serial22", "ecc_big", "coord_big"])
-        names, sd, truth = gen_site_source(rng, ctx, edge)
+        directed = k == 0           # directed corpus first: independent of the seed's luck
+        if directed:
+            edge = None
+        names, sd, truth = gen_site_source(rng, ctx, edge, directed)
         src_path = Path(f"/data/site_info/igs_{k}.snx")
         ctx.count(f"site:stations:{len(names)}")
         ctx.count(f"site:edge:{edge}")
@@ -674,7 +683,7 @@ def run_site_writers(ctx, t, acc, n_sets):
             skip_fw = False
             rename = None
             if wname == "bernese_sta":
-                skip_fw = rng.random() < 0.4
+                skip_fw = rng.random() < 0.4 or directed
                 if rng.random() < 0.6:       # alternative names for SOME stations only (the usual case)
                     rename = {st_: gen_name(rng, 4) for st_ in names if rng.random() < 0.4}
                     if len(rename) == len(names):
@@ -1514,16 +1523,25 @@ def run_csv(ctx, t, acc, n_sets):
         n_sta = rng.choice([1, 1, 2, 3, 4])
         stations = [rng.choice("abcdefgh") + gen_name(rng, 2).replace("0", "x") + rng.choice("klmn") for _ in range(n_sta)]
         n_ep = rng.choice([1, 2, 3, 6, 12]) if ctx.quick() else rng.choice([1, 3, 10, 40, 150])
+        if k == 0:                  # directed corpus first: several stations at >= 3 common epochs, rows not in date order
+            n_sta, n_ep = max(n_sta, 2), max(n_ep, 3)
+            stations = (stations + ["bxyk", "cxyl"])[:n_sta]
         t0 = datetime(2023, 1, 1) + timedelta(days=rng.randrange(0, 500))
         hours = rng.sample(range(0, max(4, n_ep * 2)), n_ep)                      # unsorted epochs
         rows = [(s_, t0 + timedelta(hours=h, seconds=rng.choice([0, 30]) * h)) for h in hours for s_ in stations if rng.random() < 0.9 or s_ == stations[0]]
         rng.shuffle(rows)
+        if k == 0 and [r[1] for r in rows] == sorted(r[1] for r in rows):
+            rows.reverse()
         n = len(rows)
         dset = dataset.Dataset(num_obs=n)
         dset.add_time("time", val=[r[1] for r in rows], scale="gps", fmt="datetime")
         dset.add_text("station", val=[r[0] for r in rows])
         dset.add_float("reflection_height", val=np.array([gen_small(rng) for _ in range(n)]), unit="meter")
         dset.add_float("water_level", val=np.array([gen_coord(rng) if rng.random() > 0.05 else float("nan") for _ in range(n)]), unit="meter")
+        has_date = k == 0 or rng.random() < 0.4      # the caller's dataset already has the 'date' field: the writer uses it as it is
+        if has_date:
+            dset.add_text("date", val=[r[1].strftime("%Y-%m-%d %H:%M:%S") for r in rows])
+        ctx.count(f"csv:date_field:{has_date}")
         fields = OrderedDict()
         fields["date"] = rng.choice(["s", "s", ""])
         cand = [("time.gps.mjd", rng.choice([".6f", ".3f"])), ("time.gps.gps_ws.week", "d"), ("time.gps.gps_ws.seconds", ".3f"),
